@@ -3,7 +3,7 @@
 From Coq Require Import Ascii String ZArith List Bool.
 Import ListNotations.
 From Coq Require Import PrimFloat.
-Require Import PyBase Solver SolverF FText FTextFacts FSem FSemFacts FSolve FSolveFacts FSolveSim FSolveEdge FPassFacts FSolveAll FPassSolve FortranF FortranExamples.
+Require Import PyBase Solver SolverF FText FTextFacts FWrapFacts FSem FSemFacts FSolve FSolveFacts FSolveSim FSolveRun FSolveEdge FPassFacts FSolveAll FPassSolve FortranF FortranExamples.
 Open Scope Z_scope.
 
 (* ================================================================== text of build_fortran_definition *)
@@ -46,6 +46,28 @@ Theorem C07_term_rewritten endo exo par err x i k :
   = Some (lit "solved_values(" ++ dec (S i) ++ lit ", " ++ f_idx_text k ++ lit ")").
 Proof. exact (term_rewritten endo exo par err x i k). Qed.
 Print Assumptions C07_term_rewritten.
+
+(* LONG EQUATIONS: an entry of the equations block is the commented equation on its own line followed by the continuation
+   lines of the code, and those lines denote — as the compiler joins them — the lines of textwrap.wrap side by side with
+   only blanks in between: a break at a blank neither splits nor glues a token *)
+Theorem C07_block_is_comment_then_code eq ws : no_nl eq ->
+  block eq ws = lit "  ! " ++ eq ++ [nl] ++ wrapped_def ws.
+Proof. exact (block_is_comment_then_code eq ws). Qed.
+Print Assumptions C07_block_is_comment_then_code.
+
+Theorem C07_continuation_denotes_glue w0 rest :
+  Forall no_nl (w0 :: rest) -> Forall no_amp (w0 :: rest) -> forallb is_space w0 = false ->
+  logical false (plain_lines (wrapped_def (w0 :: rest)) []) = lit "  " ++ glue (w0 :: rest).
+Proof. exact (continuation_denotes_glue w0 rest). Qed.
+Print Assumptions C07_continuation_denotes_glue.
+
+(* "the Fortran source ... compiles" for "long equations that need continuation lines": refuted when a blank-free run of the
+   code exceeds the wrap width — textwrap.wrap then breaks inside a token and the join puts blanks there (NEW finding) *)
+Theorem C07_continuation_splits_token_refuted :
+  logical false (plain_lines (wrapped_def [lit "y = abs(ab"; lit "s(x))"]) []) = lit "  y = abs(ab    s(x))" /\
+  lit "y = abs(ab" ++ lit "s(x))" = lit "y = abs(abs(x))".
+Proof. exact continuation_splits_token. Qed.
+Print Assumptions C07_continuation_splits_token_refuted.
 
 (* ================================================================== error codes *)
 Theorem C07_wrapper_codes_are_template_codes :
@@ -140,9 +162,28 @@ Section C07.
     agree num (w_solve_t evf fm d o t s) (solve_t_M ev before after d o t s).
   Proof. exact (w_solve_t_refines num sub absf ltb isfin zero evf ev before after fm d o t s p n m). Qed.
 
+  (* the same with hypotheses on the passes that actually RUN only (FSolveRun.run_ok: pass j+1 evaluates without raising and
+     leaves finite check / endogenous values; unless it ends the iteration the same is asked of the next pass) *)
+  Theorem C07_wrapper_refines_python_solve_t_run (evf : Z -> vals num -> vals num) (ev before after : hook num) fm d o t s p n m :
+    shape n m (vals_of s) -> length (status s) = n -> (0 < m)%nat ->
+    rows_ok m (check d) -> rows_ok m (endo d) ->
+    fm_endo fm = endo_nums d -> fm_lags fm = Z.of_nat (lags d) -> fm_leads fm = Z.of_nat (leads d) ->
+    py_pos n t = Some p -> feasible d n p = true ->
+    errors o <> EInvalid -> 0 < max_iter o -> min_iter o <= max_iter o ->
+    (offset o = 0 \/ 0 <= Z.of_nat p + offset o < Z.of_nat n) ->
+    (forall v, shape n m v -> shape n m (evf (Z.of_nat p + 1) v)) ->
+    let v0 := seeded num zero d o (vals_of s) p in
+    (forall em cf k v, before t em cf k v = (v, None)) ->
+    (forall em cf k v, after t em cf k v = (v, None)) ->
+    all_finite num isfin (get_check num zero d v0 p) = true ->
+    run_ok num sub absf ltb isfin zero evf ev d o t p v0 (Z.to_nat (max_iter o)) 0 ->
+    agree num (w_solve_t evf fm d o t s) (solve_t_M ev before after d o t s).
+  Proof. exact (w_solve_t_refines_run num sub absf ltb isfin zero evf ev before after fm d o t s p n m). Qed.
+
   (* END TO END, solve_t: the engine compiled from `prog` and the class generated from `prog` agree on return value /
      exception class, values, statuses and iteration counts: literal-free program inside the declared lags / leads,
-     variable numbers = rows + 1, feasible period, max_iter >= 1, in-span offset, values that stay finite *)
+     variable numbers = rows + 1, feasible period, max_iter >= 1, in-span offset, and (FPassFacts.run_ok_prog) along the passes
+     that run: benign max / min, no numpy warning when warnings are errors, finite check / endogenous values *)
   Theorem C07_solve_t_engines_agree (prog : list (eqn num)) fm d o t s p n m :
     shape n m (vals_of s) -> length (status s) = n -> (0 < m)%nat ->
     rows_ok m (check d) -> rows_ok m (endo d) ->
@@ -151,19 +192,18 @@ Section C07.
     py_pos n t = Some p -> feasible d n p = true ->
     errors o <> EInvalid -> 0 < max_iter o -> min_iter o <= max_iter o ->
     (offset o = 0 \/ 0 <= Z.of_nat p + offset o < Z.of_nat n) ->
-    let evf := f_pass prog in
     let v0 := seeded num zero d o (vals_of s) p in
-    let N := Z.to_nat (max_iter o) in
-    (forall i, (i < N)%nat -> pass_ok (is_raise (errors o) && catch_first o) prog p (iterv num evf p v0 i)) ->
-    stays_finite num isfin zero evf d p v0 N ->
-    agree num (w_solve_t evf fm d o t s) (solve_t_M (py_hook prog n) (no_hook num) (no_hook num) d o t s).
+    all_finite num isfin (get_check num zero d v0 p) = true ->
+    run_ok_prog num add sub mul div neg absf ltb is_nan is_inf of_int fexp flog fpow round4 exp4 log4 pow4 zero one isfin
+                (is_raise (errors o) && catch_first o) prog d o p v0 (Z.to_nat (max_iter o)) 0 ->
+    agree num (w_solve_t (f_pass prog) fm d o t s) (solve_t_M (py_hook prog n) (no_hook num) (no_hook num) d o t s).
   Proof. exact (solve_t_engines_agree num add sub mul div neg absf ltb is_nan is_inf of_int fexp flog fpow round4 exp4 log4 pow4
                   zero one isfin neg_mul neg_div prog fm d o t s p n m). Qed.
 
   (* FortranEngine.solve (ONE call of the template's `solve` over all periods, then the wrapper's result loop) refines
      SolverMixin.solve (a loop of solve_t calls), for any equations block: same list of return values or exception class,
      same values, statuses, iteration counts; `solve_ok` asks of every period — on the store its predecessors leave — what
-     C07_wrapper_refines_python_solve_t asks, with finite values *)
+     C07_wrapper_refines_python_solve_t_run asks (FSolveAll.period_ok) *)
   Theorem C07_wrapper_refines_python_solve (evf : Z -> vals num -> vals num) (ev : hook num) fm d o n m ec fc fl ps s :
     (0 < m)%nat -> rows_ok m (check d) -> rows_ok m (endo d) ->
     fm_endo fm = endo_nums d -> fm_lags fm = Z.of_nat (lags d) -> fm_leads fm = Z.of_nat (leads d) ->
@@ -252,6 +292,7 @@ Print Assumptions C07_literal_free_expressions_agree.
 Print Assumptions C07_pass_agree.
 Print Assumptions C07_evaluate_engines_agree.
 Print Assumptions C07_wrapper_refines_python_solve_t.
+Print Assumptions C07_wrapper_refines_python_solve_t_run.
 Print Assumptions C07_solve_t_engines_agree.
 Print Assumptions C07_wrapper_refines_python_solve.
 Print Assumptions C07_solve_engines_agree.
